@@ -272,6 +272,15 @@ func reqKey(rq *Req) string {
 	if rq.Plain {
 		k += "|plain"
 	}
+	if rq.Expired {
+		k += "|expired"
+	}
+	if rq.HTTP10 {
+		k += "|1.0"
+	}
+	if rq.Served {
+		k += "|served"
+	}
 	for _, f := range rq.WFaults {
 		k += fmt.Sprintf("|%d:%d:%s", f.At, f.N, f.Err)
 	}
